@@ -67,6 +67,24 @@ def scenarios(rng, tier, runner):
                     out.append(Scenario("zbody-%d-%d-%s" % (opd[0], ed, fv),
                                         ["T.use loc", tline(ed, t), "ss.new", "ss.list 0", "ss.setfactors 0 " + fv, "ss.expand 0", "ss.list 0", "ss.speclayout 0", "ds.invalid"],
                                         {"tables": "loc", "ed": ed, "template": t}))
+    # 2 03 YYY: several elements redefined in one block, in ascending, descending and mixed descriptor order;
+    # the new references are data: set them, let the encoder settle, then look at the layout
+    nums = [d for d in pool["num"] if B[d][2] <= 24]
+    for i in range(40 if tier == "quick" else 400):
+        y = rng.choice([8, 12, 16, 20])
+        k_ = rng.choice([2, 2, 3, 4])
+        els = rng.sample(nums, k_)
+        order = rng.choice(["asc", "desc", "mixed"])
+        els = sorted(els) if order == "asc" else sorted(els, reverse=True) if order == "desc" else els
+        tail = els[:] if rng.random() < 0.5 else list(reversed(els))
+        t = [203000 + y] + els + [203255] + tail + [203000] + tail
+        vals = [rng.choice([0, 1, -1 * rng.randrange(1, 2 ** (y - 1)), rng.randrange(1, 2 ** (y - 1))]) for _ in els]
+        ls = ["T.use loc", tline(4, t), "ss.new"]
+        for j, v in enumerate(vals):
+            raw = v if v >= 0 else (1 << (y - 1)) | (-v)
+            ls.append("ss.setraw 0 %d %d" % (1 + j, raw))
+        ls += ["ds.encode 0", "ss.list 0", "ds.invalid"]
+        out.append(Scenario("newref-%s-%d" % (order, i), ls, {"tables": "loc", "ed": 4, "template": t, "newrefs": vals}))
     n = 1200 if tier == "quick" else 12000
     for i in range(n):
         name = rng.choice(["cur", "loc"])
@@ -113,13 +131,22 @@ def in_scope(ed, items):
             return "mixed"
     return None
 
-def check_layout(B, ed, nodes):
+def check_layout(B, ed, nodes, newrefs=None):
     its = items_of(nodes)
     descs = [n["desc"] for n in its]
     why = in_scope(ed, descs)
     if why:
         return None, why
-    want = regs.layout(B, ed, descs)
+    if newrefs is not None:
+        seq = iter(newrefs)
+        memo = {}
+        def nv(desc, idx):
+            if idx not in memo:
+                memo[idx] = next(seq, None)
+            return memo[idx]
+        want = regs.layout(B, ed, descs, newref_value=nv)
+    else:
+        want = regs.layout(B, ed, descs)
     for n, w in zip(its, want):
         d, kind, width, scale, ref, af = w
         got_kind = KIND.get(n["type"], '?')
@@ -150,7 +177,10 @@ def oracle(scn, outs):
         elif t[0] == "tm.new":
             ed = int(t[1]); accepted = o.startswith("ok")
         elif t[0] == "ss.list" and accepted and B is not None and o not in ("none", "-"):
-            r, skip = check_layout(B, ed, parse_nodes(o))
+            nr = scn.meta.get("newrefs")
+            if nr is not None and not (sum(1 for l in scn.lines if l.startswith("ss.setraw")) == len(nr) and "ds.encode 0" in scn.lines):
+                continue      # a shrunk scenario that no longer installs every new reference
+            r, skip = check_layout(B, ed, parse_nodes(o), nr)
             if r:
                 return r
     return None
